@@ -9,7 +9,7 @@ PID = "C07"
 ANCHORS = ["pyoma2.functions.fdd:EFDD_mpe", "pyoma2.functions.fdd:SDOF_bellandMS", "pyoma2.functions.fdd:FDD_mpe", "pyoma2.algorithms.fdd:EFDD.mpe"]
 REQUIRED_MONITORS = ["truth@EFDD_mpe(EFDD)", "truth@EFDD_mpe(FSDD)", "scale-invariance(EFDD)", "scale-invariance(FSDD)", "truth@EFDD.mpe(class)", "truth@FSDD.mpe(class)"]
 ALL_STATES = [f"nxseg={n}" for n in (1024, 2048, 4096, 8192)] + ["xi<3%", "xi>4%", "fn<0.08fs", "fn>0.2fs", "bandwidth<6 lines", "same array object analysed twice with different content"]
-REQUIRED_STATES = ["nxseg=1024", "nxseg=2048", "nxseg=4096", "xi<3%", "xi>4%", "same array object analysed twice with different content", "Fortran-ordered spectral matrix", "pick given as an integer", "class created with the default estimator"]
+REQUIRED_STATES = ["fs below 0.3 Hz (slow monitoring record)", "fs above 3 kHz", "EFDD_mpe called with method / DF1 / DF2 by position", "nxseg=1024", "nxseg=2048", "nxseg=4096", "xi<3%", "xi>4%", "same array object analysed twice with different content", "Fortran-ordered spectral matrix", "pick given as an integer", "class created with the default estimator"]
 RULE = ("exactly the quantifier's class: analytic SDOF spectral density |H(f)|^2 phi phi^T + 1e-9 full-rank floor on the grid k fs/nxseg, fn in "
         "[0.04,0.25] fs, xi in [2,5] %, half-power bandwidth >= 4 lines, >= 30 periods in the half record, 2..6 channels, real shapes, "
         "DF2 in [4,10] bandwidths, default sppk/npmax/MAClim; oracle = the statement's numbers (MAC >= 0.999, 2.5 % frequency, 15 % damping) "
@@ -38,6 +38,8 @@ def draw(rng, nxs=(1024, 2048, 4096, 8192)):
     for _ in range(1000):
         nxseg = int(rng.choice(nxs))
         fs = float(10 ** rng.uniform(0, 3))
+        if rng.random() < 0.3:
+            fs = float(10 ** rng.uniform(-3, 5))  # "any fs": slow monitoring records (one sample per minute or hour) and kHz-MHz sampling alike
         nch = int(rng.integers(2, 7))
         fn = float(rng.uniform(0.04, 0.25) * fs)
         if fs >= 30 and rng.random() < 0.25:
@@ -89,6 +91,10 @@ def states(ctx, nxseg, fs, fn, xi, df, bw):
         ctx.state("fn>0.2fs")
     if bw < 6 * df:
         ctx.state("bandwidth<6 lines")
+    if fs < 0.3:
+        ctx.state("fs below 0.3 Hz (slow monitoring record)")
+    if fs > 3e3:
+        ctx.state("fs above 3 kHz")
 
 
 def run_function(ctx, rng):
@@ -107,6 +113,12 @@ def run_function(ctx, rng):
             ctx.state("pick given as an integer")
         Fn, Xi, Phi, _ = fdd.EFDD_mpe(S, freq, 1 / fs, pick, "per", method=method, DF1=DF1, DF2=DF2)
         ctx.check(np.array_equal(S, Sc), "inputs_modified", "EFDD_mpe modified the spectral matrix")
+        if rng.random() < 0.25:
+            # the documented positional order (Sy, freq, dt, sel_freq, method_SD, method, DF1, DF2) means what the keywords mean
+            Fp, Xp, Pp, _ = fdd.EFDD_mpe(S, freq, 1 / fs, pick, "per", method, DF1, DF2)
+            ctx.state("EFDD_mpe called with method / DF1 / DF2 by position")
+            ctx.check(np.array_equal(Fp, Fn) and np.array_equal(Xp, Xi), f"{method}:positional_call_differs",
+                      lambda: f"EFDD_mpe(Sy, freq, dt, sel, 'per', {method!r}, DF1, DF2) gives fn={np.ravel(Fp)}, xi={np.ravel(Xp)}; with keywords fn={np.ravel(Fn)}, xi={np.ravel(Xi)} {info}")
         judge(ctx, f"truth@EFDD_mpe({method})", f"{method}", Fn, Xi, Phi, fn, xi, phi, info)
         Fn2, Xi2, Phi2, _ = fdd.EFDD_mpe(S * c, freq, 1 / fs, [fn], "per", method=method, DF1=DF1, DF2=DF2)
         ctx.ev(f"scale-invariance({method})")
